@@ -24,3 +24,75 @@ Theorem C14_code_gather_by_position : forall (V : Type) (getattr : V -> string -
     Forall (fun item => is_none (getattr item "[1]") = false) (as_list z).
 Proof. exact retrieve_returns. Qed.
 Print Assumptions C14_code_gather_by_position.
+
+(* ---- the INITIAL LABELLING AS TRANSLATED (Gen/G_la_initial.v; facts: Proofs/GenEquivLW.v): one Gaussian mixture with num_clusters
+   components, fitted on and predicting for the same training data; the function itself consults no other source ---- *)
+From Ticc Require Import Gen.PySkel Gen.G_la_initial Proofs.GenEquivLW.
+Section SkelLW14.
+  Local Open Scope string_scope.
+  Variable V : Type.
+  Variable vnone : V.
+  Variable vint : Z -> V.
+  Variable as_int : V -> option Z.
+  Variable veq : V -> V -> bool.
+  Variable getattr : V -> string -> V.
+  Variable truthy : V -> bool.
+  Variable is_none : V -> bool.
+  Variables vtrue vfalse : V.
+  Variable as_list : V -> list V.
+  Variable vglobal : string -> V.
+  Variable oracle : list (event V) -> string -> list V -> res V.
+  Theorem C14_code_initial_labels (num_clusters training_data r : V) (log log' : list (event V)) :
+    g_build_initial_clusters V oracle num_clusters training_data log = (Ret r, log') ->
+    exists cov_type gmm fitted labels,
+      log' = (log ++ [Ev "expr:'full'" [];
+                      Ev f_gmm [num_clusters; cov_type];
+                      Ev "method:fit" [gmm; training_data];
+                      Ev "method:predict" [gmm; training_data];
+                      Ev f_pylist [labels]])%list /\
+      oracle log "expr:'full'" [] = Ret cov_type /\
+      oracle (log ++ [Ev "expr:'full'" []])%list f_gmm [num_clusters; cov_type] = Ret gmm /\
+      oracle (log ++ [Ev "expr:'full'" []; Ev f_gmm [num_clusters; cov_type]])%list "method:fit" [gmm; training_data] = Ret fitted /\
+      oracle (log ++ [Ev "expr:'full'" []; Ev f_gmm [num_clusters; cov_type]; Ev "method:fit" [gmm; training_data]])%list
+             "method:predict" [gmm; training_data] = Ret labels /\
+      oracle (log ++ [Ev "expr:'full'" []; Ev f_gmm [num_clusters; cov_type]; Ev "method:fit" [gmm; training_data];
+                      Ev "method:predict" [gmm; training_data]])%list
+             f_pylist [labels] = Ret r.
+  Proof. intros; eapply initial_returns; eassumption. Qed.
+End SkelLW14.
+Print Assumptions C14_code_initial_labels.
+
+(* ---- the WORKER POOL AS TRANSLATED (Gen/G_pool.v; facts: Proofs/GenEquivGU.v): the caller's process count reaches the pool only when
+   CUPCAKE_ENABLE_MULTIPROCESSING is set and non-empty; otherwise the pool has exactly one process ---- *)
+From Ticc Require Import Gen.PySkel Gen.G_pool Proofs.GenEquivGU.
+Section SkelGU14.
+  Local Open Scope string_scope.
+  Variable V : Type.
+  Variable vnone : V.
+  Variable vint : Z -> V.
+  Variable as_int : V -> option Z.
+  Variable veq : V -> V -> bool.
+  Variable getattr : V -> string -> V.
+  Variable truthy : V -> bool.
+  Variable is_none : V -> bool.
+  Variables vtrue vfalse : V.
+  Variable as_list : V -> list V.
+  Variable vglobal : string -> V.
+  Variable oracle : list (event V) -> string -> list V -> res V.
+  Theorem C14_code_pool_size (num_processes r : V) (log log' : list (event V)) :
+    g_init_task_pool V vnone vint as_int is_none oracle num_processes log = (Ret r, log') ->
+    exists key env,
+      let pre := (log ++ [Ev f_envkey []; Ev f_envget [key; vnone]])%list in
+      oracle log f_envkey [] = Ret key /\
+      oracle (log ++ [Ev f_envkey []]) f_envget [key; vnone] = Ret env /\
+      if is_none env
+      then log' = (pre ++ [Ev f_pool [vint 1]])%list /\
+           oracle pre f_pool [vint 1] = Ret r
+      else exists lenv n,
+           oracle pre "len" [env] = Ret lenv /\ as_int lenv = Some n /\
+           let p := if (n >? 0)%Z then num_processes else vint 1 in
+           log' = (pre ++ [Ev "len" [env]; Ev f_pool [p]])%list /\
+           oracle (pre ++ [Ev "len" [env]]) f_pool [p] = Ret r.
+  Proof. intros; eapply pool_returns; eassumption. Qed.
+End SkelGU14.
+Print Assumptions C14_code_pool_size.
